@@ -77,9 +77,9 @@ checks = {
    text="The views depend on history (order and batching of the export requests, flushed vs unflushed data, which process wrote the spans) and on the clock (the RED job computes its rows from what arrived in the last five simulated minutes); both are driven by the simulator. Each arrived span must be covered by exactly one RED run; every well-formed trace must be listed once with the root's service/operation and exact span and error counts; a span tree must contain every span once beneath its parent also for traces larger than the 1000-span page; the dependency matrix must count exactly the cross-service parent/child pairs also beyond one result page; malformed traces (missing parent, two roots, cycle, duplicate span) may be refused or partial but must not crash, hang, show foreign spans or take other traces' answers down.",
    note=TRUST + " The hourly DependencyGraphThread and the aggregated /dependencies route are not reached (the on-demand generate-dep-graph route is). Jaeger routes are not driven. Root start/end times are compared to 1 us (they pass through float64). Span times lie within 3 s of the export instant."),
  "C20": dict(level="exploration", ref="DESIGN.md §4 C20",
-   technique="deterministic simulation on the fake clock with restarts and a seeded scheduler: (A) the node's own alert cron jobs evaluate generated log alerts over seeded per-minute event batches with seeded webhook delivery failures; history, state and recorded deliveries compared with the N-window state machine over a reference aggregate evaluator; (B) seeded create/update/rename/move/delete/list histories with kill and graceful restarts, interleaved organisations and concurrent clients against the real handlers of dashboards, folders, saved queries, index aliases, lookup files, contact points and alerts, compared operation by operation with a keyed-store reference model",
-   text="A: simulated minutes cost milliseconds, so 5-21 minute alert histories (1-3 concurrent alerts, 8 query shapes, 5 conditions, interval 1-3 min, window N x interval) run against the real gocron scheduler, sqlite store, query engine and notification handler; every history row must follow Firing iff all of the last N outcomes held / Pending iff the latest but not all / Normal otherwise; evaluations once per interval (also after a restart); notifications exactly one per Firing evaluation (cool-down is 0 in this store), one on return to Normal after a delivered Firing. B: 15-120 operation histories over a per-run subset of seven stores and 1-3 organisations, with repeated and unusual names, stale and foreign ids, restarts (killed or graceful) at seeded positions followed by a full read-back, and a phase of 2-4 concurrent clients owning disjoint objects under seeded pre-emption; an operation is applied to the model iff the node acknowledged it, valid operations must be acknowledged and invalid ones refused, every read/list must equal the model, foreign organisations must not be able to change an object.",
-   note=TRUST + " Metric alerts are not driven. An ungrouped sum/min/max/avg over an empty window is left undefined (engine answers 0, SPL null). sqlite does its own real file I/O outside the disk seam, so crashes inside a store operation are not enumerated here (restarts are at operation boundaries). Organisations other than 0 are reached through the handlers' myid parameter. Lookup files go through the real HTTP route."),
+   technique="deterministic simulation on the fake clock with restarts and a seeded scheduler: (A) the node's own alert cron jobs evaluate generated log alerts over seeded per-minute event batches with seeded webhook delivery failures; history, state and recorded deliveries compared with the N-window state machine over a reference aggregate evaluator; (B) seeded create/update/rename/move/delete/list histories with kill and graceful restarts, interleaved organisations and concurrent clients against the real handlers of dashboards, folders, saved queries, index aliases, lookup files, contact points and alerts, compared operation by operation with a keyed-store reference model; (C) crash-point enumeration inside the operations of the file-backed stores: the process exits after a mutating fs call of an operation, the next incarnation boots and reads everything back",
+   text="A: simulated minutes cost milliseconds, so 5-21 minute alert histories (1-3 concurrent alerts, 8 query shapes, 5 conditions, interval 1-3 min, window N x interval) run against the real gocron scheduler, sqlite store, query engine and notification handler; every history row must follow Firing iff all of the last N outcomes held / Pending iff the latest but not all / Normal otherwise; evaluations once per interval (also after a restart); notifications exactly one per Firing evaluation (cool-down is 0 in this store), one on return to Normal after a delivered Firing. B: 15-120 operation histories over a per-run subset of seven stores and 1-3 organisations, with repeated and unusual names, stale and foreign ids, restarts (killed or graceful) at seeded positions followed by a full read-back, and a phase of 2-4 concurrent clients owning disjoint objects under seeded pre-emption; an operation is applied to the model iff the node acknowledged it, valid operations must be acknowledged and invalid ones refused, every read/list must equal the model, foreign organisations must not be able to change an object. C: for seeded histories over dashboards/folders, saved queries, aliases and lookup files every mutating fs call made by the operations (quick: 30 sampled per history, thorough: all) is a crash point; afterwards the node must start, the operation in flight may or may not have taken effect, and every other object must read back as last acknowledged.",
+   note=TRUST + " Metric alerts are not driven. An ungrouped sum/min/max/avg over an empty window is left undefined (engine answers 0, SPL null). sqlite does its own real file I/O outside the disk seam, so crashes inside contact/alert operations are not enumerated (they are restarted at operation boundaries); crashes inside the file-backed stores are (part C). Organisations other than 0 are reached through the handlers' myid parameter. Lookup files go through the real HTTP route."),
  "C01": dict(level="exploration", ref="DESIGN.md §4 C01",
    technique="deterministic simulation: seeded ingest/flush/rotate/restart histories on the real node under the seeded scheduler, checked against an event-set reference model",
    text="Seeded search over ingest histories (batching, flush, forced rotation, idle-timer flush, graceful restart, swarm knobs) executed by the real writer/reader/query code inside a deterministic simulator; after every flush-completing step the match-all result must equal the model's event multiset field by field. Exploration is the right level: the space of histories x JSON shapes is unbounded.",
